@@ -77,7 +77,17 @@ func carryLen(i uint32) int {
 // then checks every root / look-up against wantRoots
 func c01Feed(r *mon.Run, caseID string, sc any, g *rand.Rand, deps []*bridgesync.Bridge, wantRoots []common.Hash, mode, restartEvery int, oracle string) {
 	blocks := c01Partition(g, deps, mode, 7)
-	s, err := newStore("bridge", "c01")
+	// in a third of the restart-free runs the store sits on the fault-injecting driver: some blocks
+	// fail once at a random storage statement and are processed again (what the driver does); the
+	// roots must be the contract's all the same
+	faulty := restartEvery == 0 && g.Intn(3) == 0
+	var s *store
+	var err error
+	if faulty {
+		s, err = newFaultStore("bridge", "c01f")
+	} else {
+		s, err = newStore("bridge", "c01")
+	}
 	if err != nil {
 		r.Inconclusive("cannot open store: " + err.Error())
 		return
@@ -93,6 +103,20 @@ func c01Feed(r *mon.Run, caseID string, sc any, g *rand.Rand, deps []*bridgesync
 			}
 			s = ns
 			restarts++
+		}
+		if faulty && g.Intn(3) == 0 {
+			s.Fault.OnlyInTx(true)
+			if g.Intn(4) == 0 {
+				s.Fault.ArmCommit()
+			} else {
+				s.Fault.Arm(1+g.Intn(40), false)
+			}
+			err := s.Process(cloneBlock("bridge", b))
+			_, _, _ = s.Fault.Disarm()
+			if err == nil {
+				continue
+			}
+			r.Add("blocks_failed_once_then_retried", 1)
 		}
 		if err := s.Process(b); err != nil {
 			r.Violation("C01:process-error", caseID, fmt.Sprintf("ProcessBlock(%d): %v", b.Num, err), sc)
